@@ -81,6 +81,9 @@ structure StRes where
   nReward : Nat := 0
   nRounds : Nat := 0
   rewardPaid : List (Nat × Int) := []
+  burnedNow : Int := 0
+  returnedNow : Int := 0
+  execNow : Nat := 0
 
 def tfail (r : StRes) (m : String) : StRes := { r with mon := false, note := if r.note.isEmpty then m else r.note }
 def tdiff (r : StRes) (m : String) : StRes := { r with ok := false, note := if r.note.isEmpty then m else r.note }
@@ -106,16 +109,18 @@ def settleStep (r : StRes) (a b : SSnap) : StRes := Id.run do
             let m := execute p.slash p.burn anyVoter o
             if p.burn != burnAmount p.slash then r := tdiff r s!"burn amount of dispute {d.id}: implementation {p.burn}, model {burnAmount p.slash}"
             if d.voterReward != m.voterReward then r := tdiff r s!"voter reward of dispute {d.id}: implementation {d.voterReward}, model {m.voterReward}"
-            -- burned at execution = supply drop of the block (no other burn in a block without tip/withdraw transactions)
-            let otherBurn := b.xs.any (fun x => x.kind == "tip" || x.kind == "wd" || x.kind == "wfr")
-            if !otherBurn && a.supply - b.supply != m.burned then r := tfail r s!"execution of dispute {d.id} ({repr o}) burned {a.supply - b.supply}, expected {m.burned}"
-            -- the dispute module hands out exactly burn + what goes back to the reporter's side
-            let quiet := b.xs.all (fun x => !x.ok || !(x.kind == "wfr" || x.kind == "claim" || x.kind == "disp" || x.kind == "addfee"))
-            if quiet then
-              let out := a.disputeBal - b.disputeBal
-              let lo := m.burned + m.toReporter - 64
-              if out > m.burned + m.toReporter || out < lo then
-                r := tfail r s!"execution of dispute {d.id} ({repr o}) moved {out} out of escrow, expected {m.burned} burned + {m.toReporter} returned"
+            r := { r with burnedNow := r.burnedNow + m.burned, returnedNow := r.returnedNow + m.toReporter, execNow := r.execNow + 1 }
+  -- burned at execution = supply drop of the block (no other burn in a block without tip/withdraw transactions); the dispute
+  -- module hands out exactly burn + what goes back to the reporter's side (summed over the disputes executed in this block)
+  if r.execNow > 0 then
+    let otherBurn := b.xs.any (fun x => x.kind == "tip" || x.kind == "wd" || x.kind == "wfr")
+    if !otherBurn && a.supply - b.supply != r.burnedNow then r := tfail r s!"execution of {r.execNow} dispute(s) burned {a.supply - b.supply}, expected {r.burnedNow}"
+    let quiet := b.xs.all (fun x => !x.ok || !(x.kind == "wfr" || x.kind == "claim" || x.kind == "disp" || x.kind == "addfee"))
+    if quiet then
+      let out := a.disputeBal - b.disputeBal
+      if out > r.burnedNow + r.returnedNow || out < r.burnedNow + r.returnedNow - 64 then
+        r := tfail r s!"execution of {r.execNow} dispute(s) moved {out} out of escrow, expected {r.burnedNow} burned + {r.returnedNow} returned"
+    r := { r with burnedNow := 0, returnedNow := 0, execNow := 0 }
   -- refunds
   for x in b.xs do
     if x.kind == "wfr" then
